@@ -128,10 +128,6 @@ def _placed_pair(S, O):
     import fdtdx
 
     mats = {"a": fdtdx.Material(permittivity=2.0), "b": fdtdx.Material(permittivity=5.0)}
-    if disp:
-        from fdtdx.dispersion import DispersionModel, LorentzPole
-        mats = {"a": fdtdx.Material(permittivity=1.0),
-                "b": fdtdx.Material(permittivity=2.0, dispersion=DispersionModel(poles=(LorentzPole(resonance_frequency=4e14, damping=1e13, delta_epsilon=1.5),)))}
     dev = fdtdx.Device(name="dev", materials=mats, param_transforms=[], partial_voxel_grid_shape=(1, 1, 1))
     src = fdtdx.PointDipoleSource(name="src", wave_character=fdtdx.WaveCharacter(wavelength=600e-9), polarization=0)
     return dev.aset("_grid_slice_tuple", tuple(S)), src.aset("_grid_slice_tuple", tuple(O))
